@@ -590,16 +590,28 @@ fn pwhash_derive_keypair(i: &Input) -> Outcome {
     use dryoc::types::Bytes;
     let (pw, salt) = (i.get("pw").to_vec(), i.arr::<16>("salt"));
     let hl = i.num("hash_length") as usize;
-    let cfg = Config::interactive().with_opslimit(1).with_memlimit(8192).with_hash_length(hl);
-    let want_sk = match so::pwhash(32, &pw, &salt, 1, 8192, 2) {
+    // optional: opslimit / memlimit (bytes; libsodium hands floor(memlimit / 1024) KiB to Argon2, so limits that are not
+    // a whole number of KiB are legitimate inputs).  Default: the minimal costs.
+    let ops = if i.has("opslimit") { i.num("opslimit") } else { 1 };
+    let mem = if i.has("memlimit") { i.num("memlimit") as usize } else { 8192 };
+    let cfg = Config::interactive().with_opslimit(ops).with_memlimit(mem).with_hash_length(hl);
+    let want_sk = match so::pwhash(32, &pw, &salt, ops, mem, 2) {
         Some(v) => v,
-        None => return fail("libsodium crypto_pwhash succeeds", "error", "oracle"),
+        None => panic!("{} libsodium crypto_pwhash refuses opslimit {} memlimit {}", HARNESS, ops, mem),
     };
-    let kp: StackKeyPair = must_ok(PwHash::<Vec<u8>, Vec<u8>>::derive_keypair(&pw, salt.to_vec(), cfg), "derive_keypair")?;
-    eq("derive_keypair secret key", &want_sk, kp.secret_key.as_slice())?;
+    let what = format!("(opslimit {}, memlimit {} bytes)", ops, mem);
+    let kp: StackKeyPair =
+        must_ok(PwHash::<Vec<u8>, Vec<u8>>::derive_keypair(&pw, salt.to_vec(), cfg.clone()), &format!("derive_keypair {}", what))?;
+    eq(&format!("derive_keypair secret key {} vs libsodium crypto_pwhash", what), &want_sk, kp.secret_key.as_slice())?;
     let mut sk32 = [0u8; 32];
     sk32.copy_from_slice(&want_sk);
-    eq("derive_keypair public key", &so::scalarmult_base(&sk32), kp.public_key.as_slice())
+    let want_pk = so::scalarmult_base(&sk32);
+    eq(&format!("derive_keypair public key {} vs crypto_scalarmult_base(libsodium crypto_pwhash)", what), &want_pk, kp.public_key.as_slice())?;
+    // Vec-based key pair containers take the same route
+    let kpv: dryoc::keypair::KeyPair<Vec<u8>, Vec<u8>> =
+        must_ok(PwHash::<Vec<u8>, Vec<u8>>::derive_keypair(&pw, salt.to_vec(), cfg), &format!("derive_keypair into Vecs {}", what))?;
+    eq(&format!("derive_keypair (Vec containers) secret key {}", what), &want_sk, kpv.secret_key.as_slice())?;
+    eq(&format!("derive_keypair (Vec containers) public key {}", what), &want_pk, kpv.public_key.as_slice())
 }
 
 pub const C13: Registry = &[
@@ -620,6 +632,19 @@ pub fn c13(ctx: &mut Ctx) -> Search {
         let pw = ctx.rng.bytes((hl % 7) as usize + 1);
         let salt: [u8; 16] = ctx.rng.arr();
         ctx.run("pwhash_derive_keypair", Input::new().b("pw", &pw).b("salt", &salt).u("hash_length", hl))?;
+    }
+    // memory limits that are not a whole number of KiB (and whole ones around them), several pass counts
+    let mut limits: Vec<(u64, u64)> = vec![(1, 8193), (1, 9000), (1, 8192 + 1023), (1, 10 * 1024 + 5), (2, 10_000), (1, 9216), (3, 12_287)];
+    if t {
+        limits.extend_from_slice(&[(1, 8192 + 512), (1, 16_383), (1, 16_384), (1, 16_385), (2, 65_536 + 512), (1, 100_000), (4, 8200), (1, 1_000_000), (2, 1_048_575)]);
+    }
+    for (j, (ops, mem)) in limits.into_iter().enumerate() {
+        let pw = ctx.rng.bytes(j % 9);
+        let salt: [u8; 16] = ctx.rng.arr();
+        ctx.run(
+            "pwhash_derive_keypair",
+            Input::new().b("pw", &pw).b("salt", &salt).u("hash_length", [32u64, 16, 64][j % 3]).u("opslimit", ops).u("memlimit", mem),
+        )?;
     }
     let maxlen = if t { 128 } else { 64 };
     for len in 0..=maxlen {
